@@ -216,6 +216,14 @@ func (s *gstate) genParam(at model.Pos, refPct int) map[string]any {
 	if rapid.Bool().Draw(t, "body") {
 		return map[string]any{"name": s.newLabel("P"), "in": "body", "schema": s.genSchema(at.Child("schema"), 1, 60)}
 	}
+	if Pct(t, "arrayparam", 30) {
+		// a simple-schema array parameter: its items objects are targets of ResolveItems (C05)
+		items := map[string]any{"type": "string", "format": s.newLabel("IT")}
+		if Pct(t, "nesteditems", 40) {
+			items = map[string]any{"type": "array", "format": s.newLabel("IT"), "items": map[string]any{"type": "integer", "format": s.newLabel("IT"), "x-items": s.newLabel("X")}}
+		}
+		return map[string]any{"name": s.newLabel("P"), "in": "query", "type": "array", "items": items, "collectionFormat": "csv"}
+	}
 	return map[string]any{"name": s.newLabel("P"), "in": "query", "type": "string"}
 }
 
